@@ -8,6 +8,12 @@ INV = "PackingAgrees Widths HashAgrees Export"
 
 
 def val(cls, salt):
+    if cls == "t1":            # ends in one zero byte
+        return (256 ** 29 * (3 + salt % 50) + 1 + salt) * 256
+    if cls == "t2":            # ends in two zero bytes
+        return (256 ** 20 * (7 + salt % 50) + 1 + salt) * 65536
+    if cls == "t31":           # a single non-zero top byte followed by 31 zero bytes
+        return 256 ** 31 * (1 + salt % 40)
     if cls == 0:
         return 0
     if cls == 1:
@@ -55,7 +61,7 @@ def run(ctx):
         "Keccak.tla is the oracle for the hash (KAT-pinned; every spec hash is also cross-checked against x/crypto by the harness: disagreement = spec bug, exit 2)",
         "the on-chain verifier hashes abi.encodePacked(uint32.., uint256..) and reduces modulo r (transcribed in Packing.tla)",
     ]
-    classes = [32, 31, 30, 16, 1, 0]
+    classes = [32, 31, 30, 16, 1, 0, "t1", "t2", "t31"]
     cases = []
     salt = 0
     # leg A: every (pre class, post class) pair per mode, commitments / indices through their classes, batch 0..3 and multi-block
@@ -66,7 +72,7 @@ def run(ctx):
                 if mode == "insertion":
                     b = salt % 4
                     cases.append(dict(mode=mode, start=[0, 1, 65536, 2 ** 32 - 1][salt % 4], pre=val(cp, salt), post=val(cq, salt + 7),
-                                      ids=[val(classes[(salt + j) % 6], salt + j) for j in range(b)]))
+                                      ids=[val(classes[(salt + j) % len(classes)], salt + j) for j in range(b)]))
                 else:
                     b = [0, 1, 2, 3, 18, 19][salt % 6] if not ctx.quick else salt % 4
                     cases.append(dict(mode=mode, idxs=[[0, 1, 65536, 2 ** 32 - 1][(salt + j) % 4] for j in range(b)], pre=val(cp, salt), post=val(cq, salt + 7)))
@@ -132,7 +138,7 @@ def run(ctx):
     ctx.cov["code_documents"] = nB
     ctx.cov["code_documents_with_short_root"] = short
     ctx.cov["gen_test_params_dims"] = len(dims)
-    ctx.cov["rule"] = ("leg A: TLC picks byte-length classes {32,31,30,16,1,0} for every root/commitment, index classes and batch sizes, computes the on-chain hash "
+    ctx.cov["rule"] = ("leg A: TLC picks magnitude classes (byte lengths 32,31,30,16,1,0 and values ending in 1, 2, 31 zero bytes) for every root/commitment, index classes and batch sizes, computes the on-chain hash "
                        "(PackingAgrees/HashAgrees checked) and the Go helpers must return it; leg B: documents produced by the code (gen-test-params via the CLI for a "
                        "(mode, depth, batch) sweep, random valid batches incl. roots with leading zero bytes) are validated against Packing.tla and must be accepted by the real circuit")
 
